@@ -269,6 +269,9 @@ class Extractor {
       }
       if (auto *MC = dyn_cast<CXXMemberCallExpr>(S)) {
         if (const Expr *Obj = MC->getImplicitObjectArgument()) o["obj"] = emitStmt(fs, Obj);
+        // Base::f(): a qualified member call is bound statically even when f is virtual
+        if (auto *CME = dyn_cast<MemberExpr>(MC->getCallee()->IgnoreParens()))
+          if (CME->hasQualifier()) o["qualified"] = true;
       } else if (auto *OC = dyn_cast<CXXOperatorCallExpr>(S)) {
         o["op"] = getOperatorSpelling(OC->getOperator());
         if (FD && isa<CXXMethodDecl>(FD) && OC->getNumArgs() > 0) o["obj"] = emitStmt(fs, OC->getArg(0));
